@@ -8,11 +8,11 @@ ALL = ["C%02d" % i for i in range(1, 21)]
 CHECKS = {
  "C03": ("mc-seq", "fault_enumeration",
    "complete enumeration of stated mutation neighbourhoods (truncation, byte substitution, field boundary values, splices, grammar products) of a seed corpus through the whole real ingestion/analysis chain, with crash isolation",
-   "Cannot be decided for all byte strings by enumeration; decided is crash-freedom on an exhaustively enumerated neighbourhood: every truncation point, every offset x 7 substitution values, every recorded header / type-info / length / numeric / service-id / timestamp field x boundary table, every message-boundary splice of generated seeds, adjacent field pairs (thorough), every offset replaced by a multi-byte character (text seeds) and grammar products of text lines, plus uncorrupted multi-lifecycle histories (the boot-trace product of the C08 explorer as DLT files; every event sequence to depth 3/6 over the alphabets of the C05-C07 explorer through detection + listing), each run through reader -> text rendering -> re-serialisation -> EAC statistics -> lifecycle detection and listing -> time sort -> filters -> all built-in plugins, with overflow checks on, panics caught with their location, worker death attributed to the announced case, and an allocation rule (no request >= 32 MiB that the unmutated seeds never make).",
+   "Cannot be decided for all byte strings by enumeration; decided is crash-freedom on an exhaustively enumerated neighbourhood: every truncation point, every offset x 7 substitution values, every recorded header / type-info / length / numeric / service-id / timestamp field x boundary table, every message-boundary splice of generated seeds, adjacent field pairs (thorough), every offset replaced by a multi-byte character (text seeds) and grammar products of text lines, every pair of fields at most 8 apart x corner values of the file-transfer seed, limit-size text cases (tags / bus names of 65490..70000 bytes, seconds around 2^32, 2^63/10^6, 2^64/10^6), plus uncorrupted multi-lifecycle histories (the boot-trace product of the C08 explorer as DLT files; every event sequence to depth 3/6 over the alphabets of the C05-C07 explorer through detection + listing), each run through reader -> text rendering -> re-serialisation -> EAC statistics -> lifecycle detection and listing -> time sort -> filters -> all built-in plugins, with overflow checks on, panics caught with their location, worker death attributed to the announced case, and an allocation rule (no request >= 32 MiB that the unmutated seeds never make).",
    "Trusted: seed corpus and field maps of the harness. Not covered: byte strings outside the neighbourhoods, BLF input, FIBEX/JSON plugin configurations other than the repository's.", "4 C03"),
  "C17": ("mc-seq", "model_checking",
    "exhaustive enumeration of transfer shapes x single faults x interleavings x configurations through the real file-transfer plugin API, file-system sandbox scan as oracle",
-   "Every content length 1..9 x package size x single fault (drop / duplicate at every later position / swap / grow / shrink a package, drop FLST, drop FLFI) x 10 configs x both byte orders, with unrelated and near-miss messages at every position; 1-3 concurrent transfers differing in exactly one of serial / ECU / lifecycle under every interleaving (also with the first transfer's announcement or end marker repeated); 12 announced file names x globs x pre-existing entries (file, directory, dangling symlink, symlink to file) x directory states; hostile FLST size announcements (>= 64 MiB products in a child process). Oracle: complete iff all packages in order (duplicates tolerated), saved (through the tree item by occurrence and through the item of the 'Sorted by name' view) and auto-saved bytes equal the original, nothing damaged saved as complete, sandbox scan shows no write outside the configured directory and no overwritten entry.",
+   "Every content length 1..9 x package size x single fault (drop / duplicate at every later position / swap / grow / shrink a package, drop FLST, drop FLFI) x 10 configs x both byte orders, with unrelated and near-miss messages at every position; 1-3 concurrent transfers differing in exactly one of serial / ECU / lifecycle under every interleaving (also with the first transfer's announcement or end marker repeated); 12 announced file names x globs x pre-existing entries (file, directory, dangling symlink, symlink to file) x directory states; hostile FLST size announcements (>= 64 MiB products in a child process); completing one-package transfers whose announced buffer size lies around and above the 16 MiB pre-allocation bound. Oracle: complete iff all packages in order (duplicates tolerated), saved (through the tree item by occurrence and through the item of the 'Sorted by name' view) and auto-saved bytes equal the original, nothing damaged saved as complete, sandbox scan shows no write outside the configured directory and no overwritten entry.",
    "Trusted: harness verbose-payload encoder and sandbox scanner. Not covered: multiple faults per transfer, a repeated package number with different bytes, file-system races.", "4 C17"),
  "C14": ("mc-cli", "exploration",
    "full product of convert option combinations x input-file permutations against the freshly built adlt binary, reference selection computed in the harness",
@@ -20,7 +20,7 @@ CHECKS = {
    "Trusted: harness-side option semantics; one generated 20-message input set. Lifecycle ids of a fresh process are assumed to count from 1 in creation order (the check would fail on the unchanged tree otherwise).", "4 C14"),
  "C18": ("mc-seq", "exploration",
    "exhaustive enumeration of typed argument sequences x encoders x every truncation point x every single field corruption on the real verbose payload encoder/decoder/renderer",
-   "All argument sequences of length 0..2/3 over a 119-symbol value alphabet (every type and width, extremes, NaN/inf, empty/NUL/control/non-UTF-8/maximal strings, raw) and longer ones over sub-alphabets, through payload_from_args (both byte orders), the serde Serializer and dlt_args!; every cut of the encoded payload; every replacement of each type-info (boundary table, 32 bit flips, TYLE values, unsupported kinds) and 16-bit length field. Oracle: same count/types/raw bytes; text matches an independently written canonical matcher (only what the statement fixes); truncated => prefix; corrupted field j => arguments before j intact; returned slices inside the payload; no panic.",
+   "All argument sequences of length 0..2/3 over a 119-symbol value alphabet (every type and width, extremes, NaN/inf, empty/NUL/control/non-UTF-8/maximal strings incl. byte-order-mark look-alikes at the start, raw) and longer ones over sub-alphabets, through payload_from_args (both byte orders), the serde Serializer and dlt_args!; every cut of the encoded payload; every replacement of each type-info (boundary table, 32 bit flips, TYLE values, unsupported kinds) and 16-bit length field. Oracle: same count/types/raw bytes; text matches an independently written canonical matcher (only what the statement fixes); truncated => prefix; corrupted field j => arguments before j intact; returned slices inside the payload; no panic.",
    "Trusted: harness-side canonical text matcher. Float spelling and display of non-UTF-8 bytes are deliberately not bound.", "4 C18"),
  "C09": ("mc-seq", "exploration",
    "exhaustive enumeration of source families (sizes x reception-time tuples x start indices x constructors) on the real merge / chain iterators",
@@ -36,11 +36,11 @@ CHECKS = {
    "Trusted: harness-side FLDA recogniser and canonicalisation. Pseudonym scope judged per ECU / per ECU+APID (the scheme's counters); capacity bound 999 stated, beyond it not judged.", "4 C19"),
  "C20": ("mc-seq", "model_checking",
    "stateless exhaustive exploration of read/seek operation sequences on the real SeekableChain against std::io::Cursor; exhaustive archive/pattern/sandbox product on the real extraction code",
-   "Chain: every split of a byte string of length <= 6 into <= 3 volumes (empty ones included; in-memory, 1-byte-read and real-file volumes) x every sequence of read/seek operations up to depth 4 (quick) / 5-6 (thorough), each on a fresh chain, compared with a Cursor over the concatenation (sequences the reference rejects are counted and excluded). Extraction: hand-written zip containers with hostile member names (.., absolute, aliases, duplicates, empty, directory entries, > 64 KiB) x glob patterns x pre-existing foreign files x extract_archives / extract_to_dir, every multi-volume cut, and a skipped-member size sweep past the zip reader's EOCD window; each case in its own sandbox that is snapshotted before and after: nothing created/modified outside, contents identical, reported set = matching members whose names stay inside.",
+   "Chain: every split of a byte string of length <= 6 into <= 3 volumes (empty ones included; in-memory, 1-byte-read and real-file volumes) x every sequence of read/seek operations up to depth 4 (quick) / 5-6 (thorough), each on a fresh chain, compared with a Cursor over the concatenation (sequences the reference rejects are counted and excluded). Extraction: hand-written zip containers with hostile member names (.., absolute, aliases, duplicates, empty, directory entries, > 64 KiB, a name that is itself a glob next to the name it matches) x glob patterns x pre-existing foreign files x extract_archives / extract_to_dir, every multi-volume cut, and a skipped-member size sweep past the zip reader's EOCD window; each case in its own sandbox that is snapshotted before and after: nothing created/modified outside, contents identical, reported set = matching members whose names stay inside.",
    "Trusted: the harness' zip writer and sandbox snapshot. Not covered: deflate members, symlinks, libarchive formats, streams longer than 6 bytes / more than 3 volumes.", "4 C20"),
  "C16": ("mc-remote", "model_checking",
    "exhaustive enumeration of arrival batchings / windows / filters / window changes / search pagings, executed on the real stream code (library) and on the real server handlers via the in-binary driver",
-   "Library: every log of N<=6/8 messages x 2^N match patterns x stream/query x window ends x chunk sizes x every composition of N into arrival batches (x window extensions) on the real process_stream_new_msgs, judged after every tick. Server: 2160 (quick) / ~12k (thorough) scripted sessions on the real handlers - every filter set x window x kind x binary/text x arrival batching, one window change after every tick, all search pagings, index/time lookups for every message (sorted and unsorted; the two ECUs' lifecycles start 40 s apart) - compared with the filtered log computed from the generated file.",
+   "Library: every log of N<=6/8 messages x 2^N match patterns x stream/query x window ends x chunk sizes x every composition of N into arrival batches (x window extensions) on the real process_stream_new_msgs, judged after every tick. Server: ~2500 (quick) / ~14k (thorough) scripted sessions on the real handlers - every filter set (7, one with two event filters) x window x kind x binary/text x arrival batching, one window change after every tick, all search pagings, index/time lookups for every message (sorted and unsorted; the two ECUs' lifecycles start 40 s apart) - compared with the filtered log computed from the generated file.",
    "Trusted: driver hook, generated 6-message log, harness-side expected filtered log. Not covered: logs with several lifecycles per ECU for the time lookup, plugins altering the stream.", "4 C16"),
  "C11": ("mc-seq", "exploration",
    "exhaustive enumeration of abstract filters x message universe against an independent spec evaluator, through every library front-end",
@@ -48,35 +48,35 @@ CHECKS = {
    "Trusted: the harness' spec evaluator. The --eac text parser itself is exercised through the binary under C14.", "4 C11"),
  "C12": ("mc-seq", "exploration",
    "exhaustive enumeration of filter tuples x message stream on both set-matching implementations against the statement's rule",
-   "All ordered tuples of <= 4 (thorough 6) filters from a 19-filter pool (every kind x enabled/disabled x plain/negated, overlapping criteria) are run through filter_as_streams over a real channel, match_filters behind StreamContext::from and the remote stream path process_stream_new_msgs (stream and query, chunk limits 1/2/unbounded) on a 30-message stream, and 324 paged stream_search sessions run on the real server handlers through the in-binary driver (union of pages = matching stream positions): selection, messages unchanged and in order, passed+filtered = received, event-AND clause, agreement of the two implementations.",
-   "Trusted: spec evaluator shared with C11. The export plugin reuses match_filters and is not driven separately.", "4 C12"),
+   "All ordered tuples of <= 4 (thorough 6) filters from a 19-filter pool (every kind x enabled/disabled x plain/negated, overlapping criteria) are run through filter_as_streams over a real channel, match_filters behind StreamContext::from and the remote stream path process_stream_new_msgs (stream and query, chunk limits 1/2/unbounded) on a 30-message stream, the real ExportPlugin configured with every filter set of <= 2 (thorough 3) filters (the file it writes = the statement's selection), and 441 paged stream_search sessions run on the real server handlers through the in-binary driver (union of pages = matching stream positions): selection, messages unchanged and in order, passed+filtered = received, event-AND clause, agreement of the two implementations.",
+   "Trusted: spec evaluator shared with C11.", "4 C12"),
  "C15": ("mc-remote", "model_checking",
    "explicit-state BFS over command histories (dedup on canonical session state), every transition executed on the real remote handlers via the cfg-guarded in-binary driver; reference session model as oracle",
-   "Breadth-first search from the initial state (depth 4 quick / 6 thorough), from 7 prepared non-initial states (incl. a session opened with two plugins of the same name and one without command support) over a 59-symbol alphabet, and two deeper searches (depth 4/3 quick, 6/5 thorough, own seen-set) over the 10 session-flow commands (pause/resume/stream/query/stop/window change/ticks) from a drained one-pass and a drained collect-all session; plus close under back-pressure (700k / 1.8M-message file, pipeline blocked on its full channels) and (thorough) a TCP conformance replay of explored histories against `adlt remote` of valid, malformed, out-of-order and mistyped commands and message-arrival ticks; every transition re-executes the history on process_incoming_text_message / process_file_context inside the adlt binary (in-memory websocket). A reference session model decides: one reply frame of the right form per command and none on ticks, no panic, reply classes for open/close/pause/resume/stream/stop/change-window and for stale/never-issued/non-numeric ids, fresh ids, open flag and stream set consistent with the replies, frames only for live streams, every step (incl. close) returns within the watchdog.",
+   "Breadth-first search from the initial state (depth 4 quick / 6 thorough), from 7 prepared non-initial states (incl. a session opened with two plugins of the same name and one without command support) over a 59-symbol alphabet, and two deeper searches (depth 4/3 quick, 6/5 thorough, own seen-set) over the 10 session-flow commands (pause/resume/stream/query/stop/window change/ticks) from a drained one-pass and a drained collect-all session; plus the stateless `fs` command over a 102-element (cmd, path) product (directories, files, zip archives with members / without entries / corrupt / truncated, archive-internal and malformed paths) in closed and open sessions; plus close under back-pressure (700k / 1.8M-message file, pipeline blocked on its full channels) and (thorough) a TCP conformance replay of explored histories against `adlt remote` of valid, malformed, out-of-order and mistyped commands and message-arrival ticks; every transition re-executes the history on process_incoming_text_message / process_file_context inside the adlt binary (in-memory websocket). A reference session model decides: one reply frame of the right form per command and none on ticks, no panic, reply classes for open/close/pause/resume/stream/stop/change-window and for stale/never-issued/non-numeric ids, fresh ids, open flag and stream set consistent with the replies, frames only for live streams, every step (incl. close) returns within the watchdog.",
    "Trusted: the driver hook (verif_driver.rs; 3 inserted statements in process_file_context, inert unless armed), the abstraction of the socket event loop by explicit ticks, the dedup assumption stated in the evidence. Not covered: socket I/O errors, the TCP accept path (thorough replays explored histories over a real websocket).", "4 C15"),
  "C08": ("mc-seq", "exploration",
    "exhaustive enumeration of ground-truth boot traces (parameters x permutations x interleavings) on the real lifecycle stage",
    "Every trace of the stated product (1-3 ECUs, 1-3 boots, timestamp profiles, per-boot delays, off-times, all message permutations inside a boot, all interleavings of the ECU streams; plus a family whose message indices are 100 001 apart so that the detector's index-scheduled regular table refresh falls after every forwarded message) that satisfies the property's premise is run through the real detector and compared with the generator's ground truth: one lifecycle per boot, message assignment, start = boot+delay, end = start+max timestamp, counts. Candidates outside the premise are counted, not judged.",
    "Trusted: ground-truth generator. Known finding (delay drop > off-time fuses boots) is keyed by a predicate on the ground truth; everything outside it is judged exactly.", "4 C08"),
  "C13": ("mc-sched", "model_checking",
-   "controlled-scheduler exploration of real threads (shuttle runtime, own delay-/preemption-bounded DFS scheduler) over the real stage functions and bounded channels",
+   "controlled-scheduler exploration of real threads (shuttle runtime, own delay-/preemption-bounded DFS scheduler) over the real stage functions and bounded channels, 6 message streams",
    "All schedules within the stated delay bound (every pipeline shape) and preemption bound (the shapes where it stays feasible) of 3-6 real threads running adlt's real stage functions over real sync_channels of capacity 0/1/2 written through the real blocking-send helper are executed; drained pipelines must equal the sequential unbounded reference (sequence, or multiset when sorted, and final lifecycle table; a consumer that follows the table incrementally by lcs_w_refresh_idx - the protocol of remote.rs - and polls before every receive must end with the final table's values), dropped consumers must let every thread terminate (shuttle reports a deadlock otherwise). Also checks in the consumer thread that each delivered message's lifecycle is already published (C06, cross-thread).",
    "Trusted: shuttle's modelling of mpsc channels/sleep/spawn/join; adlt built with cfg adlt_verif_sched (channel import switch only). Not covered: weak-memory effects, production channel capacities, schedules beyond the bounds.", "4 C13"),
  "C01": ("mc-seq", "exploration",
    "exhaustive enumeration of a message-shape x garbage x framing product on the real DltMessageIterator against an independent byte builder",
-   "Every stream of the stated finite product (all 32 header-flag sets, payload sizes incl. maximum, id/counter variants, 12 garbage lengths x 8 contents before/between/after, both framings, singles / all ordered shape pairs / core triples; and msg-garbage-msg-msg-msg streams with every garbage length 0..8300 (thorough 16584) read through the real LowMarkBufReader(8 KiB, low mark 4 KiB) over sources with full, 5000-byte (thorough also 4096/1000/1-byte) reads, with small messages and with 3-3.9 KB messages close to the low mark) is parsed by the real iterator and compared field by field with an independently written builder, incl. the skipped/processed counters. Coverage statement for the product, not for all byte values.",
+   "Every stream of the stated finite product (all 32 header-flag sets, payload sizes incl. maximum, id/counter variants, 12 garbage lengths x 8 contents before/between/after, both framings, singles / all ordered shape pairs / core triples; and msg-garbage-msg-msg-msg streams with every garbage length 0..8300 (thorough 16584) read through the real LowMarkBufReader(8 KiB, low mark 4 KiB) over sources with full, 5000-byte (thorough also 4096/1000/1-byte) reads, with small messages and with 3-3.9 KB messages close to the low mark; and through LowMarkBufReader(512 KiB, low mark = DLT_MAX_STORAGE_MSG_SIZE / DLT_MIN_PARSER_LOOKAHEAD_SIZE as the repository's file readers use them) with a maximum-size message starting at every buffered-byte count 65490..65610 (thorough 64000..67000)) is parsed by the real iterator and compared field by field with an independently written builder, incl. the skipped/processed counters. Coverage statement for the product, not for all byte values.",
    "Trusted: the harness' byte builder and the marker scanner that enforces the property's premise. Not covered: payload/garbage byte values outside the pattern sets.", "4 C01"),
  "C02": ("mc-seq", "exploration",
    "exhaustive enumeration of parsed-message shapes through to_write / re-parse / to_write",
-   "Every message of the stated product (32 flag sets x both framings x payload sizes incl. every size 0..max for selected shapes x id sets x reception/timestamp corners) and every sequence of <= 5/6 pool messages (incl. payloads containing frame markers), and a 600 KB normal-form file read the way `adlt convert` reads it (LowMarkBufReader 512 KiB, low mark = DLT_MIN_PARSER_LOOKAHEAD_SIZE and DLT_MAX_STORAGE_MSG_SIZE) with a near-maximum message starting at every buffered-byte count 65380..65720 (thorough 60000..70000), is exported with the real writer, re-read with the real parser and exported again: consumed == written, fields equal, second export byte-identical, streams keep order and count.",
-   "Trusted: harness builder/comparison. The CLI path (adlt convert -o) is exercised by C14.", "4 C02"),
+   "Every message of the stated product (32 flag sets x both framings x payload sizes incl. every size 0..max for selected shapes x id sets x reception/timestamp corners) and every sequence of <= 5/6 pool messages (incl. payloads containing frame markers), and a 600 KB normal-form file read the way `adlt convert` reads it (LowMarkBufReader 512 KiB, low mark = DLT_MIN_PARSER_LOOKAHEAD_SIZE and DLT_MAX_STORAGE_MSG_SIZE) with a near-maximum message starting at every buffered-byte count 65380..65720 (thorough 60000..70000), and (through the binary) `adlt convert -o` on files with a near-maximum first / inner / last message, is exported with the real writer, re-read with the real parser and exported again: consumed == written, fields equal, second export byte-identical, streams keep order and count.",
+   "Trusted: harness builder/comparison. The option product of the CLI is C14's.", "4 C02"),
  "C04": ("mc-seq", "model_checking",
    "explicit-state BFS by re-execution over reader operations (dedup on canonical state) + exhaustive read-size schedule enumeration for the iterator",
    "Reader: from the initial state every sequence of 19 operations (fill/consume/read/seek with state-relative arguments) is explored breadth-first per configuration with state deduplication (and an undeduplicated tree to depth 4/5), each transition executed on the real LowMarkBufReader over a scripted short-read source and compared with a byte-vector + cursor model. Iterator: 10 streams x 3 capacities x ~300 read-size schedules (constants incl. 1 byte, all single and double deviations in the first 12 calls) must give identical messages and counters; whole-message suffixes parse to the tail.",
    "Trusted: harness model (byte vector + cursor), fingerprint argument (see evidence rule). Low mark = adlt::dlt::DLT_MIN_PARSER_LOOKAHEAD_SIZE, the constant the production call sites pass.", "4 C04"),
  "C05": ("mc-seq", "model_checking",
    "stateless bounded exhaustive exploration of event sequences (full depth + deviation-bounded + two-phase) on the real lifecycle stage",
-   "Every event sequence in the stated bounds (all sequences to depth 3/4 over a 40-symbol alphabet derived from the detector's thresholds; all length-8..12 sequences with <=3..4 deviations over 48 symbols; all prefix/suffix splits over a shared table; all sequences to depth 6/8 over a 10-symbol suspend/resume alphabet; the same sequences with message indices 100 001 / 50 001 apart so that the index-scheduled regular table refresh falls between the messages) is executed on parse_lifecycles_buffered_from_stream and compared with the identity stream: same messages, same order, lifecycle id non-zero and of the message's ECU. A coverage statement for the bounds, not a proof for unbounded streams.",
+   "Every event sequence in the stated bounds (all sequences to depth 3/4 over a 40-symbol alphabet derived from the detector's thresholds; all length-8..12 sequences with <=3..4 deviations over 48 symbols; all prefix/suffix splits over a shared table (40-symbol alphabet to depth 3/4; suspend/resume alphabet: all splits to depth 5, the last ones to depth 7/8); all sequences to depth 6/8 over a 10-symbol suspend/resume alphabet; the same sequences with message indices 100 001 / 50 001 apart so that the index-scheduled regular table refresh falls between the messages) is executed on parse_lifecycles_buffered_from_stream and compared with the identity stream: same messages, same order, lifecycle id non-zero and of the message's ECU. A coverage statement for the bounds, not a proof for unbounded streams.",
    "Trusted: the harness' stream generator and comparison code; alphabet choice (thresholds 1/2/10/30/60 s from both sides). Not covered: timestamps/reception deltas outside the alphabet, >3 ECUs.", "4 C05-C07"),
  "C06": ("mc-seq+mc-sched", "model_checking",
    "stateless bounded exhaustive exploration of event sequences with a table lookup inside every downstream-sender call + controlled-scheduler exploration with the lookup in the consumer thread",
